@@ -191,6 +191,7 @@ type Chain struct {
 	Absent          map[common.ValidatorIndex]bool
 	SlotSteps       []HonestSlots
 	prevEff         []common.Gwei
+	ZeroHashMerge   bool // the merge-transition payload gets block_hash = 0
 	rejections      int
 	runErr          error
 	Eth1HalfPattern bool
@@ -210,7 +211,9 @@ type HonestStep struct {
 	Engine string
 	Line   int
 	// Rejected: zrnt did not accept this block (kept as a seed for the derived streams)
-	Rejected bool
+	Rejected      bool
+	HasPayload    bool
+	ZeroHashMerge bool
 }
 
 func (c *Chain) Slot() common.Slot {
